@@ -93,6 +93,10 @@ fn check_node(built: Option<&Built>, run: &NodeRun, seed: u32, st: &mut Stats) -
         let mut any_noncontig = false;
         let mut any_changed = false;
         let mut max_len = 0usize;
+        // root-cause trait of the variant, for the signature: a zero stride on a dim of size > 1, a zero
+        // stride on a size-1 dim only, or just the kind of view
+        let mut zero_big = false;
+        let mut zero_unit = false;
         for (p, kind) in variant {
             let v = run.inputs[*p].as_ref().unwrap();
             let shape = v.shape().to_vec();
@@ -124,6 +128,13 @@ fn check_node(built: Option<&Built>, run: &NodeRun, seed: u32, st: &mut Stats) -
                 any_noncontig = true;
                 max_len = max_len.max(v.len());
             }
+            for (d, st) in l.strides().iter().enumerate() {
+                if *st == 0 && shape[d] > 1 {
+                    zero_big = true;
+                } else if *st == 0 {
+                    zero_unit = true;
+                }
+            }
             recipes.push(format!("input {p} as {} view: shape {:?} strides {:?}", kind.name(), shape, l.strides()));
             laid[*p] = Some(l);
         }
@@ -147,7 +158,14 @@ fn check_node(built: Option<&Built>, run: &NodeRun, seed: u32, st: &mut Stats) -
         let views: Vec<Option<ValueView>> = data.iter().enumerate().map(|(p, v)| if let Some(l) = &laid[p] { Some(l.view()) } else { v.as_ref().map(|v| v.as_view()) }).collect();
         let out = run_op(run.node, &views);
         drop(views);
-        let kind_tag = if variant.len() > 1 { format!("all-inputs:{}", variant[0].1.name()) } else { format!("in{}:{}", variant[0].0, variant[0].1.name()) };
+        let trait_tag = if zero_big {
+            "stride0"
+        } else if zero_unit {
+            "unit-stride0"
+        } else {
+            variant[0].1.name()
+        };
+        let kind_tag = if variant.len() > 1 { format!("all-inputs:{trait_tag}") } else { format!("in{}:{trait_tag}", variant[0].0) };
         let describe = |what: &str| {
             let ins: Vec<String> = data.iter().map(show_opt).collect();
             let outs: Vec<String> = reference.iter().map(show).collect();
